@@ -19,6 +19,20 @@ REPO = os.environ.get("VERIF_REPO", "/repo")
 # primitives
 # ---------------------------------------------------------------------------------------------------
 
+def timed(s, label, obj, write, cond, timeout):
+    """A blocking operation with an optional timeout; -> True if it timed out.  By default a timer expires only when
+    nothing else in the system can move (the wait is as good as blocking).  As an environment deviation it expires
+    EARLY: the operation is then performed whenever the scheduler picks it, and times out if it cannot succeed at that
+    moment -- a slow machine, on which the others simply have not got there yet."""
+    if timeout is None:
+        return s.point(Op(label, obj, write, enabled=cond))
+    if s.env_choice(2, "early-timeout"):
+        op = Op(label, obj, write)
+        op.early = cond
+        return s.point(op)
+    return s.point(Op(label, obj, write, enabled=cond, timeout=True))
+
+
 class Event(VObj):
     kind = "Event"
 
@@ -39,7 +53,7 @@ class Event(VObj):
         return self._flag
 
     def wait(self, timeout=None):
-        cur().point(Op("wait", self, False, enabled=lambda: self._flag, timeout=timeout is not None))
+        timed(cur(), "wait", self, False, lambda: self._flag, timeout)
         return self._flag
 
 
@@ -67,7 +81,7 @@ class Lock(VObj):
         else:
             if timeout is not None and timeout < 0:
                 timeout = None
-            to = s.point(Op("acquire", self, True, enabled=lambda: self._free_for(t), timeout=timeout is not None))
+            to = timed(s, "acquire", self, True, lambda: self._free_for(t), timeout)
             if to:
                 return False
         self._owner = t
@@ -136,8 +150,7 @@ class VQueue(VObj):
             if self._full():
                 raise _queue.Full()
         else:
-            to = s.point(Op("put", self, True, enabled=lambda: not self._full() or self._dead(),
-                            timeout=timeout is not None))
+            to = timed(s, "put", self, True, lambda: not self._full() or self._dead(), timeout)
             self._check_open()
             if to:
                 raise _queue.Full()
@@ -189,8 +202,7 @@ class VQueue(VObj):
             if self._proc and s.env_choice(2, "spurious-empty"):
                 raise _queue.Empty()
         else:
-            to = s.point(Op("get", self, True, enabled=lambda: bool(self._items) or self._dead(),
-                            timeout=timeout is not None))
+            to = timed(s, "get", self, True, lambda: bool(self._items) or self._dead(), timeout)
             self._check_open()
             if to:
                 raise _queue.Empty()
@@ -411,6 +423,7 @@ class _Runnable:
         self._kwargs = dict(kwargs or {})
         self._vtask = None
         self._vstarted = False
+        self._vstart_obj = VObj(kind="runnable", hint=type(self).__name__)     # orders start() with is_alive() / exitcode
         self._daemonic = bool(daemon) if daemon is not None else False
         self._name = name or type(self).__name__
 
@@ -442,6 +455,9 @@ class _Runnable:
         if self._vstarted:
             raise (AssertionError("cannot start a process twice") if self._is_process
                    else RuntimeError("threads can only be started once"))
+        # starting takes time (a fork): whatever the starter did just before -- e.g. publishing the object in a list --
+        # is visible to the others while the object is not alive yet
+        s.point(Op("start", self._vstart_obj, True))
         self._vstarted = True
         t = s.current
         # everything the parent did so far happens-before the child
@@ -471,9 +487,11 @@ class _Runnable:
             raise (AssertionError("can only join a started process") if self._is_process
                    else RuntimeError("cannot join thread before it is started"))
         task = self._vtask
-        cur().point(Op("join", task.obj, False, enabled=lambda: task.state == "done", timeout=timeout is not None))
+        timed(cur(), "join", task.obj, False, lambda: task.state == "done", timeout)
 
     def is_alive(self):
+        if not self._vstarted:
+            cur().point(Op("is_alive", self._vstart_obj, False))
         if not self._vstarted:
             return False
         task = self._vtask
@@ -492,6 +510,8 @@ class BaseProcess(_Runnable):
 
     @property
     def exitcode(self):
+        if not self._vstarted:
+            cur().point(Op("exitcode", self._vstart_obj, False))
         if not self._vstarted:
             return None
         task = self._vtask
@@ -647,6 +667,10 @@ def load(rel, modname, extra_sub=None, extra_globals=None, coverage=True):
     sub = dict(SUB)
     if extra_sub:
         sub.update(extra_sub)
+    if rel != "windpyutils/buffers.py" and "windpyutils.buffers" not in sub:
+        # the reorder buffers are part of the pools' mechanism: a fresh copy per execution as well, so that state a
+        # change might keep at module / class / default-argument level cannot leak from one execution into the next
+        sub["windpyutils.buffers"] = load("windpyutils/buffers.py", "windpyutils.buffers", coverage=coverage)
     real_import = builtins.__import__
 
     def vimport(name, globals=None, locals=None, fromlist=(), level=0):
